@@ -116,7 +116,8 @@ LOCS = ['a/foo', 'a/foobar', 'a/foo/bar', 'a/foo/bar/baz', 'a/fo', 'a/b',
         'a b/c', 'ab/c', 'a', 'deep/er/and/deeper/x', 'a/foo bar', 'a/foo.txt',
         'A/foo', 'a/Foo', 'x', 'a/foo+bar', '..cache', '...', 'a/..foo/x',
         'a/.hidden', 'a/b..c', '..a/b', 'a/...', '. /x', 'a/caf\u00e9',
-        '\u00fc/x', 'a/\u4e2d\u6587', ]
+        '\u00fc/x', 'a/\u4e2d\u6587', 'a/k=v/notes', 'a/x=1.log', 'a/p&q',
+        'a/1+1', 'a/x,y', 'a/u@h:p', ]
 
 
 def gen_nested_case(rng, index, tier):
@@ -273,11 +274,20 @@ def gen_case(rng, index, tier):
         t = rng.choice([t for t in trashes if t['volume'] == ''])
         loc = base + '/' + lc
         # no nested destinations among entries: C06's business
+        info_text = None
+        if any(c in lc for c in '=&+,@:') and rng.random() < 0.6:
+            # written by another implementation: characters that RFC 2396
+            # allows in a path segment are left as they are
+            pv = trashgen.path_value(loc, '', t['home'])
+            for esc, ch in (('%3D', '='), ('%26', '&'), ('%2B', '+'),
+                            ('%2C', ','), ('%40', '@'), ('%3A', ':')):
+                pv = pv.replace(esc, ch)
+            info_text = world.trashinfo_text(pv, dt)
         e = trashgen.add_trashed(L, rng, t['rel'], 'n%d' % i, loc, dt,
                                  rng.choice(['file', 'empty', 'link_dangling',
                                              'dir_empty']),
                                  'c%de%d' % (index, i), volume_rel='',
-                                 home=t['home'])
+                                 home=t['home'], info_text=info_text)
         entries.append(e)
     # the same path trashed twice (file kinds, distinct dates): both are
     # listed; with --overwrite both selected ones are restored, the later
